@@ -109,6 +109,11 @@ def corpus():
     # Hermes: permuted sources; F9 shape (short x_facebook_sources); duplicate names with different function maps (finding)
     r.append("rw.hermes 61,62,63 6e 6630=1.0.0,~,6632+6633=1.0.0+3.1.1 0:0:1:1:2:0:0;0:5:2:2:1:0:0;0:9:2:2:2:0:0 1 1 _")
     r.append("rw.hermes 61,62,63 6e 6630=1.0.0 0:0:1:1:2:0:0 1 1 _")
+    # more sources than a byte can index, most of them unreferenced: the function maps follow their sources through the
+    # renumbering (ids 299, 256, 255, 0 become 0..3)
+    hx_ = lambda t: t.encode().hex()
+    r.append("rw.hermes %s 6e %s %s 1 1 _" % (",".join(hx_("s%d" % i) for i in range(300)), ",".join("%s=1.0.0" % hx_("f%d" % i) for i in range(300)),
+                                            ";".join("0:%d:0:1:%d:0:0" % (c, sid) for c, sid in ((0, 299), (5, 256), (9, 255), (12, 0)))))
     r.append("rw.hermes 61,62,61 6e 6630=1.0.0,6631=1.0.0,6632=1.0.0 0:0:1:1:2:0:0;0:5:2:2:1:0:0;0:9:2:2:0:0:0 1 1 _")
     return r
 
